@@ -782,6 +782,10 @@ def replay_C16(w, clause):
     sys.path.insert(0, _REPO) if _REPO not in sys.path else None
     from codegen.case import to_snake_case
 
+    if "definitions" in w:
+        from .props import c16e
+
+        return c16e.replay(w, clause)
     if "index_generation" in w:
         from .props import c16
 
